@@ -209,8 +209,10 @@ def run_check(
 
     for key, what in sorted(known_seen.items()):
         print("KNOWN-FINDING: property=%s %s [%s]" % (prop, what, key))
-    for p in violations:
+    for p in violations[:25]:
         print("VIOLATION property=%s replay=%s" % (prop, p))
+    if len(violations) > 25:
+        print("(%d further violations not listed; replay files are under %s)" % (len(violations) - 25, REPLAY_DIR))
     for e in harness_errors:
         print("HARNESS-ERROR property=%s %s" % (prop, e), file=sys.stderr)
     for n in not_exhausted:
